@@ -529,7 +529,7 @@ func genC11f(m *M, budget int) {
 
 func init() {
 	gens["C11f"] = func(m *M, pick func(q, t int) int, shards int) {
-		total := pick(700, 20000)
+		total := pick(1500, 200000)
 		perFile(m, total, shards)
 		genC11f(m, total)
 	}
@@ -540,7 +540,7 @@ func init() {
 			g(m, total)
 		}
 	}
-	gens["C12"] = simple(genC12, 4000, 120000)
-	gens["C11"] = simple(genC11, 400, 20000)
-	gens["C09w"] = simple(genC09w, 600, 30000)
+	gens["C12"] = simple(genC12, 20000, 1000000)
+	gens["C11"] = simple(genC11, 600, 100000)
+	gens["C09w"] = simple(genC09w, 1500, 300000)
 }
